@@ -1580,7 +1580,7 @@ func (v *sxView) flagNorm(paths []*Path) []*Path {
 		return ps
 	}
 	if len(drop) == 0 {
-		return fold(cur)
+		return v.emptyGuardNorm(fold(cur))
 	}
 	var out []*Path
 	for i, p := range cur {
@@ -1592,7 +1592,204 @@ func (v *sxView) flagNorm(paths []*Path) []*Path {
 		}
 		out = append(out, p)
 	}
-	return fold(append(append(out, added...), last...))
+	return v.emptyGuardNorm(fold(append(append(out, added...), last...)))
+}
+
+// emptinessOf: t is an emptiness test of some collection X (len(X) == 0, 0 == len(X), len(X) < 1, len(X) <= 0 and their negations
+// len(X) != 0, len(X) > 0, len(X) >= 1); returns X and whether the term is TRUE for an empty X.
+func emptinessOf(t Term) (Term, bool, bool) {
+	pol := true
+	for {
+		u, ok := t.(TUn)
+		if !ok || u.Op != token.NOT {
+			break
+		}
+		t, pol = u.X, !pol
+	}
+	b, ok := t.(TBin)
+	if !ok {
+		return nil, false, false
+	}
+	lenOf := func(x Term) (Term, bool) {
+		bl, ok := x.(TBuiltin)
+		if ok && bl.Name == "len" && len(bl.Args) == 1 {
+			return bl.Args[0], true
+		}
+		return nil, false
+	}
+	x, y, op := b.X, b.Y, b.Op
+	if _, isLen := lenOf(y); isLen {
+		x, y = y, x
+		switch op {
+		case token.LSS:
+			op = token.GTR
+		case token.LEQ:
+			op = token.GEQ
+		case token.GTR:
+			op = token.LSS
+		case token.GEQ:
+			op = token.LEQ
+		}
+	}
+	X, isLen := lenOf(x)
+	k, isK := constInt(y)
+	if !isLen || !isK {
+		return nil, false, false
+	}
+	var whenEmpty bool
+	switch {
+	case op == token.EQL && k == 0, op == token.LSS && k == 1, op == token.LEQ && k == 0:
+		whenEmpty = true
+	case op == token.NEQ && k == 0, op == token.GTR && k == 0, op == token.GEQ && k == 1:
+		whenEmpty = false
+	default:
+		return nil, false, false
+	}
+	return X, whenEmpty == pol, true
+}
+
+// emptyGuardNorm (N6) removes a redundant fast path for the empty collection: `if len(xs) == 0 { return V }` in front of a loop over
+// xs whose exhausted exit returns the same V without having done anything. With nothing to visit the general path does exactly
+// that, so the guard decides nothing; it is dropped from the paths and the fast path with it.
+func (v *sxView) emptyGuardNorm(paths []*Path) []*Path {
+	for round := 0; round < 3; round++ {
+		changed := false
+		for fi, pf := range paths {
+			// a candidate fast path: conditions only, the last of them an emptiness test that holds for the empty collection
+			if pf.End != "return" && pf.End != "panic" {
+				continue
+			}
+			gi := -1
+			onlyConds := true
+			for k, s := range pf.Steps {
+				if s.Kind != "cond" {
+					onlyConds = false
+					break
+				}
+				gi = k
+			}
+			if !onlyConds || gi < 0 {
+				continue
+			}
+			X, emptyWhenTrue, ok := emptinessOf(pf.Steps[gi].Cond.T)
+			if !ok || emptyWhenTrue != pf.Steps[gi].Cond.Truth {
+				continue
+			}
+			G := pf.Steps[gi].Cond
+			// the slow paths: same prefix, the guard decided the other way
+			var slow []int
+			good := true
+			for i, p := range paths {
+				if i == fi {
+					continue
+				}
+				if len(p.Steps) <= gi {
+					continue
+				}
+				same := true
+				for k := 0; k < gi; k++ {
+					if p.Steps[k].Kind != "cond" || !sameTerm(p.Steps[k].Cond.T, pf.Steps[k].Cond.T) || p.Steps[k].Cond.Truth != pf.Steps[k].Cond.Truth {
+						same = false
+						break
+					}
+				}
+				if !same {
+					continue
+				}
+				s := p.Steps[gi]
+				if s.Kind != "cond" || !sameTerm(s.Cond.T, G.T) {
+					good = false // the guard is not decided at the same place on a path with the same prefix
+					break
+				}
+				if s.Cond.Truth == G.Truth {
+					good = false // a second path for the empty collection
+					break
+				}
+				slow = append(slow, i)
+			}
+			if !good || len(slow) == 0 {
+				continue
+			}
+			// the exhausted exit among them: guard, loop over X with zero iterations possible, nothing else
+			exhausted := -1
+			for _, i := range slow {
+				p := paths[i]
+				rest := p.Steps[gi+1:]
+				if len(rest) != 1 || rest[0].Kind != "loop" || rest[0].Loop == nil {
+					continue
+				}
+				l := rest[0].Loop
+				over := false
+				switch {
+				case l.Range != nil:
+					over = sameTerm(l.Over, X)
+				case l.For != nil && l.CondT != nil:
+					if b, ok := l.CondT.(TBin); ok && b.Op == token.LSS {
+						if lv, ok := b.X.(TLoop); ok && lv.ID == l.ID {
+							if k, ok := constInt(l.Init[lv.Obj]); ok && k == 0 {
+								if bl, ok := b.Y.(TBuiltin); ok && bl.Name == "len" && len(bl.Args) == 1 && sameTerm(bl.Args[0], X) {
+									over = true
+								}
+							}
+						}
+					}
+				}
+				if !over || p.End != pf.End || len(p.Vals) != len(pf.Vals) {
+					continue
+				}
+				eq := true
+				for k := range p.Vals {
+					a, b := simplify(p.Vals[k]), simplify(pf.Vals[k])
+					if !sameTerm(a, b) {
+						// the loop's variables keep their initial values when nothing was visited
+						a = simplify(mapTerm(a, func(t Term) (Term, bool) {
+							if lv, ok := t.(TLoop); ok && lv.ID == l.ID {
+								if init, has := l.Init[lv.Obj]; has {
+									return init, true
+								}
+							}
+							return nil, false
+						}))
+						if !sameTerm(a, b) {
+							eq = false
+						}
+					}
+				}
+				if eq {
+					exhausted = i
+				}
+			}
+			if exhausted < 0 {
+				continue
+			}
+			var out []*Path
+			for i, p := range paths {
+				if i == fi {
+					continue
+				}
+				isSlow := false
+				for _, j := range slow {
+					if j == i {
+						isSlow = true
+					}
+				}
+				if isSlow {
+					q := clonePath(p)
+					q.Steps = append(q.Steps[:gi:gi], p.Steps[gi+1:]...)
+					out = append(out, q)
+				} else {
+					out = append(out, p)
+				}
+			}
+			paths = out
+			changed = true
+			break
+		}
+		if !changed {
+			break
+		}
+	}
+	return paths
 }
 
 // ---------------------------------------------------------------- shrinking windows
